@@ -5,9 +5,9 @@ CONSTANTS
   Values <- MCValues
   KindOf <- MCKindOf
   HSlots = {"s1"}
-  Doors = {}
-  BDValues = {}
-  Depth = 3
+  Doors = {"loc", "handle", "raw"}
+  BDValues = {"a2"}
+  Depth = 4
   Emit = TRUE
   CrossKind = FALSE
 INVARIANTS TypeOK ReadAfterWrite MissingFile Leaf
